@@ -87,6 +87,14 @@ def gen_cases(ctx):
     for ev in ([], ["create", "write"]):
         cases.append({"id": len(cases), "kind": "history", "dirwatch": True, "dirs": ["sub"], "files": ["sub/old.txt", "other.md"], "inc": ["sub"], "exc": [], "events": ev,
                       "ops": [["create", "sub/new.txt"], ["write", "sub/new.txt"], ["write", "sub/new.txt"], ["write", "sub/old.txt"], ["write", "other.md"]]})
+    # the task runs in a context with a SLOW before hook: the run for an event is still going on when the next event arrives -
+    # each run reports its own event's name and path
+    hfiles = ["w1.txt", "w2.txt", "sub/w3.txt", "ex.txt", "other.md", "sub/other.md"]
+    cases.append({"id": len(cases), "kind": "history", "slowctx": True, "dirs": ["sub"], "files": hfiles, "inc": ["*.txt", "sub/*.txt"], "exc": ["ex.txt"], "events": ["write", "chmod"],
+                  "ops": [["write", "w1.txt"], ["chmod", "w2.txt"], ["write", "sub/w3.txt"]]})
+    # the FIRST run (at start, before any event) is slow: an operation on a selected file during it is observed all the same
+    cases.append({"id": len(cases), "kind": "history", "slowinit": True, "dirs": ["sub"], "files": hfiles, "inc": ["*.txt", "sub/*.txt"], "exc": ["ex.txt"], "events": [],
+                  "ops": [["write", "w1.txt"], ["write", "w2.txt"]]})
     # event histories
     evsubsets = [[]] + [[k] for k in KNAMES] + [["write", "chmod"], ["remove", "rename"], ["create", "write", "remove", "rename", "chmod"], ["write", "remove"]]
     for i in range(150 if thorough else 14):
@@ -133,6 +141,11 @@ def run_one(workdir, c):
     if c["events"]:
         w["events"] = c["events"]
     doc = {"tasks": {"t": {"command": ['echo "${EventName:-INIT} ${EventPath:-}" >> "$RUNS"']}}, "watchers": {"w": w}}
+    if c.get("slowctx"):
+        doc["contexts"] = {"slow": {"before": ["sleep 2.6"]}}
+        doc["tasks"]["t"]["context"] = "slow"
+    if c.get("slowinit"):
+        doc["tasks"]["t"]["command"] = ['echo "${EventName:-INIT} ${EventPath:-}" >> "$RUNS"; if [ -z "${EventName:-}" ]; then sleep 3; fi']
     with open(os.path.join(d, "cfg.json"), "w") as fh:
         json.dump(doc, fh)
     runs = os.path.join(d, "runs")
@@ -165,7 +178,7 @@ def run_one(workdir, c):
             pass
         time.sleep(2.2)
     if c["ops"]:
-        time.sleep(2.5)
+        time.sleep(5.5 if c.get("slowctx") else 2.5)
     if p.poll() is not None:
         res["exited_early"] = True
     else:
